@@ -634,7 +634,7 @@ pub fn run(tier: Tier) -> CheckResult {
         {"kind":"force","cache":"Matching","file_force":false,"flag":true,"seam":"cli"},
         {"kind":"force","cache":"Corrupt","file_force":true,"flag":false,"seam":"build"}
     ]));
-    res.coverage.set("rule", format!("re-run: projects of 1..{} files x 0..{} type mappings x modes x seams (plus projects in which two files define a type of the same name, re-run under 3x as many hash seeds; and projects generated with the dependency visualisation); first run under the identity order, then one unchanged non-forced run of the real binary/build path per iteration order of every hook site the second process consults (full product), with all output mtimes set to a fixed past instant beforehand; oracle: no file's bytes or mtime change, none created or deleted. Since the property requires the cache decision to be independent of the order, identity x all-orders is equivalent to all pairs. Force matrix (each case followed by one more unchanged non-forced run that must touch nothing; half of it with the dependency visualisation): cache state x file force x flag x seam x mode x configuration source (standalone typegen.json / plugins.typegen of a discovered tauri.conf.json). A re-run case is non-trivial when the second process consulted a hook site with >= 2 elements.", max_files, max_map));
+    res.coverage.set("rule", format!("[round 7: each generated file in turn moved away and replaced by a symbolic link to it, two more unchanged runs] re-run: projects of 1..{} files x 0..{} type mappings x modes x seams (plus projects in which two files define a type of the same name, re-run under 3x as many hash seeds; and projects generated with the dependency visualisation); first run under the identity order, then one unchanged non-forced run of the real binary/build path per iteration order of every hook site the second process consults (full product), with all output mtimes set to a fixed past instant beforehand; oracle: no file's bytes or mtime change, none created or deleted. Since the property requires the cache decision to be independent of the order, identity x all-orders is equivalent to all pairs. Force matrix (each case followed by one more unchanged non-forced run that must touch nothing; half of it with the dependency visualisation): cache state x file force x flag x seam x mode x configuration source (standalone typegen.json / plugins.typegen of a discovered tauri.conf.json). A re-run case is non-trivial when the second process consulted a hook site with >= 2 elements.", max_files, max_map));
     res.assumptions = vec![
         "hash-iteration orders are owned through the verif-hooks site S1 (file list), explored as a complete product; every other hash iteration of the second process is owned through its hash seeds (getrandom shim, seeds 0..8 quick / 0..24 thorough, three times as many for the duplicate-type-name projects): a deterministic, replayable seed alphabet, not a complete order product".into(),
     ];
